@@ -15,9 +15,9 @@ def dir7 (a1 a2 a3 a4 a5 a6 a7 : Arr) : Dir :=
     ("channel_positions.npy", a7) ]
 
 theorem load_dir7 (inv : Arr → Arr) (a1 a2 a3 a4 a5 a6 a7 : Arr)
-    (hm : monotone (squeeze a1).data = true) :
+    (hm : monotone (scrub a1).data = true) :
     load inv (dir7 a1 a2 a3 a4 a5 a6 a7) = .ok
-      ({ times := .samplesOverRate (squeeze a1), samples := .file (squeeze a1),
+      ({ times := .samplesOverRate (squeeze (scrub a1)), samples := .file (squeeze (scrub a1)),
          amplitudes := some (squeeze (scrub a2)), spikeTemplates := squeeze (scrub a4),
          spikeClusters := squeeze (scrub a3), channelMap := atleast 1 (squeeze (scrub a5)),
          channelPositions := atleast 2 (squeeze (scrub a7)), channelShanks := none,
@@ -62,12 +62,15 @@ theorem natVec_load (l : List Nat) (h : l.length ≠ 1) : squeeze (scrub (natVec
     obtain ⟨n, -, rfl⟩ := List.mem_map.1 hc
     exact ⟨_, rfl⟩
 
+theorem scrub_intVec (l : List Int) : scrub (intVec l) = intVec l := by
+  apply scrub_eq_self
+  intro c hc
+  obtain ⟨n, -, rfl⟩ := List.mem_map.1 hc
+  exact ⟨_, rfl⟩
+
 theorem intVec_load (l : List Int) (h : l.length ≠ 1) : squeeze (scrub (intVec l)) = intVec l := by
-  rw [scrub_eq_self]
-  · exact squeeze_vec _ _ h
-  · intro c hc
-    obtain ⟨n, -, rfl⟩ := List.mem_map.1 hc
-    exact ⟨_, rfl⟩
+  rw [scrub_intVec]
+  exact squeeze_vec _ _ h
 
 theorem posArr_load (l : List (Int × Int)) (h : l.length ≠ 1) :
     squeeze (scrub (posArr l)) = posArr l := by
@@ -170,10 +173,10 @@ theorem merged_dataset_loads (inv : Arr → Arr) (p : Probes) (h : ProbesOK p) :
   have l6 : (C12.channelProbes p.maps).length ≠ 1 := by rw [channelProbes_length]; omega
   have l7 : (C12.mergePositions p.positions).length ≠ 1 := by
     rw [mergePositions_length, flatten_length_of_shape _ _ hpos]; omega
-  have e1 : squeeze (intVec (mergedTimes p.times)) = intVec (mergedTimes p.times) :=
-    squeeze_vec _ _ l1
-  have hm : monotone (squeeze (intVec (mergedTimes p.times))).data = true := by
-    rw [e1]; exact monotone_num_of_pairwise _ (merged_sorted p.times)
+  have e1 : squeeze (scrub (intVec (mergedTimes p.times))) = intVec (mergedTimes p.times) :=
+    intVec_load _ l1
+  have hm : monotone (scrub (intVec (mergedTimes p.times))).data = true := by
+    rw [scrub_intVec]; exact monotone_num_of_pairwise _ (merged_sorted p.times)
   refine ⟨_, _, load_dir7 inv _ _ _ _ _ _ _ hm, ?_, ?_, ?_, ?_, ?_, ?_, ?_⟩
   · exact congrArg SampleSrc.file e1
   · exact congrArg some (intVec_load _ l2)
